@@ -8,6 +8,7 @@ attributes, properties and staticmethods) and the ``Factory.register`` registry.
 
 import ast
 import os
+import sys
 
 REPO_ROOT = os.environ.get("HGSA_REPO", "/repo")
 PKG = "histogrammar"
@@ -131,15 +132,62 @@ class ClassInfo:
         return f"<Class {self.qualname}>"
 
 
+_CANON_DIGEST = None
+
+
+def _canonical_tree(src, path, inline):
+    """canonicalise(parse(src)), memoised on disk by the digest of the source text and of the canonicaliser's own code.
+    The analysis always starts from the current text of the file; only the (pure) rewriting of identical text is reused.
+    HGSA_NO_CACHE=1 disables the cache; an unwritable cache directory is ignored."""
+    import hashlib
+    import pickle
+    from .canon import canonicalise
+
+    global _CANON_DIGEST
+    if os.environ.get("HGSA_NO_CACHE"):
+        return canonicalise(ast.parse(src, filename=path), inline=inline)
+    here = os.path.dirname(os.path.abspath(__file__))
+    if _CANON_DIGEST is None:
+        h = hashlib.sha256()
+        for fn in ("canon.py", "inline.py", "forward.py"):
+            with open(os.path.join(here, fn), "rb") as fh:
+                h.update(fh.read())
+        h.update(sys.version.encode())
+        _CANON_DIGEST = h.hexdigest()
+    key = hashlib.sha256((_CANON_DIGEST + ("I" if inline else "P") + src).encode("utf-8")).hexdigest()
+    cdir = os.path.join(os.path.dirname(here), ".hgsa_cache")
+    cpath = os.path.join(cdir, key + ".pkl")
+    try:
+        with open(cpath, "rb") as fh:
+            return pickle.load(fh)
+    except Exception:
+        pass
+    tree = canonicalise(ast.parse(src, filename=path), inline=inline)
+    try:
+        os.makedirs(cdir, exist_ok=True)
+        names = os.listdir(cdir)
+        if len(names) > 6000:          # variants of the self-validation accumulate: start over rather than grow without bound
+            for nm in names:
+                try:
+                    os.remove(os.path.join(cdir, nm))
+                except OSError:
+                    pass
+        tmp = cpath + f".{os.getpid()}.tmp"
+        with open(tmp, "wb") as fh:
+            pickle.dump(tree, fh, protocol=pickle.HIGHEST_PROTOCOL)
+        os.replace(tmp, cpath)
+    except Exception:
+        pass
+    return tree
+
+
 class Module:
     def __init__(self, name, path, relpath, src, inline=True):
         self.name = name
         self.path = path
         self.relpath = relpath
         self.src = src
-        from .canon import canonicalise
-
-        self.tree = canonicalise(ast.parse(src, filename=path), inline=inline)
+        self.tree = _canonical_tree(src, path, inline)
         self.lines = src.split("\n")
         self.is_pkg = os.path.basename(path) == "__init__.py"
         self.imports = {}  # local name -> ("module", modname) | ("symbol", modname, symname)
